@@ -63,15 +63,56 @@ def gen_cases(run, L):
             for _ in range(rng.choice([1, 1, 2, 3])):
                 b = layouts.mutate(rng, b)
             cases.append("dec\t%s\t%s" % (s["name"], layouts.hexs(b)))
-    # calendar values and digit overflow inside the date-time container
-    for date in ["20231005", "20231305", "20230005", "20230230", "20240229", "20230229", "20231032", "20231000", "99991231", "00000101",
-                 "0020231005", "999999999999", "99" * 10, "99" * 11]:
-        for time in ["123456", "240000", "126000", "120060", "000000", "99" * 5]:
+    return cases
+
+
+CAL_DATES = ["20231005", "20231305", "20230005", "20230230", "20240229", "20230229", "20231032", "20231000", "99991231", "00000101",
+             "0020231005", "999999999999", "99" * 10, "99" * 11,
+             # numbers that do not fit the fields they are split into (year: i32, month / day: u32): 2^32 + 20230405, 2^31 + 20230405,
+             # 2^32 + 2^31 + 20230405, 2^32 * 3 + 20231231, 2^64 - 1, a year beyond the calendar's range
+             "4315197701", "2167714053", "6462681349", "012905132119", "18446744073709551615", "0123450101", "2621420101", "2621430101", "2621450101", "21474836470101"]
+CAL_TIMES = ["123456", "240000", "126000", "120060", "000000", "235959", "99" * 5, "4295090752"]
+
+
+def calendar_cases():
+    """date-time containers with calendar values and digit overflow, each with the outcome the property demands: the
+    date-time the digits spell if that is a date-time, an error otherwise — never the date-time of a wrapped number"""
+    out = []
+    for date in CAL_DATES:
+        for time in CAL_TIMES:
             inner = "1f0e%02x%s1f0f%02x%s" % (len(date) // 2, date, len(time) // 2, time)
             tlv = "34%02x%s" % (len(inner) // 2, inner)
             body = "f0f0f0" + "00" + "06%02x%s" % (len(tlv) // 2, tlv)
-            cases.append("dec\tzvt::packets::ReceiptPrintoutCompletion\t060f%02x%s" % (len(body) // 2, body))
-    return cases
+            D, T = int(date), int(time)
+            y, mo, d = D // 10000, D // 100 % 100, D % 100
+            h, mi, s = T // 10000, T // 100 % 100, T % 100
+            leap = y % 4 == 0 and (y % 100 != 0 or y % 400 == 0)
+            dim = [31, 29 if leap else 28, 31, 30, 31, 30, 31, 31, 30, 31, 30, 31][mo - 1] if 1 <= mo <= 12 else 0
+            ok = D < 2 ** 64 and T < 2 ** 32 and y <= 262143 and 1 <= d <= dim and h < 24 and mi < 60 and s < 60
+            out.append(("dec\tzvt::packets::ReceiptPrintoutCompletion\t060f%02x%s" % (len(body) // 2, body),
+                        "d:%d,%d,%d,%d,%d,%d" % (y, mo, d, h, mi, s) if ok else None))
+    return out
+
+
+def calendar_oracle(run, drv, progs):
+    cal = calendar_cases()
+    exp = dict(cal)
+    for label, prog in progs:
+        flat, mo, io = run_pair(run, drv, prog, [c for c, _ in cal], "c02cal" + label)
+        if mo is None:
+            continue
+        for c, m, i in zip(flat, mo, io):
+            e = exp[c]
+            good = (i.startswith("Err ") if e is None else i.startswith("Ok ") and ("Some(%s)" % e) in i)
+            if not good:
+                run.violation(kind="input", case=c, expected=("an error: the digits are no date-time that fits the fields" if e is None else "Ok .. " + e),
+                              observed=i[:300] + " (%s build)" % label, how_found="oracle",
+                              detail="a number that does not fit its field must be an error, not a silently wrapped value")
+            else:
+                run.nontrivial.add("cal:" + c[-40:])
+        run.evaluations += len(flat)
+    run.coverage["calendar_cases"] = len(cal)
+    run.coverage["calendar_cases_expected_error"] = sum(1 for _, e in cal if e is None)
 
 
 def run_pair(run, prog_model, prog_impl, cases, tag):
@@ -188,6 +229,7 @@ def check(run):
                 if k < len(mo):
                     run.sample({"case": next_case(flat, k), "model": mo[k][:160], "impl": io[k][:160]})
     report_diffs(run, all_diffs, "coq/Codec.v", "the decoders generated by zvt_derive", "codec")
+    calendar_oracle(run, drv, (('debug', dbg), ('release', rel)))
     alloc_oracle(run, L, dbg)
     if any(not v.get("no_failing_input_found") for v in run.violations):
         run.violations = [v for v in run.violations if not v.get("no_failing_input_found")]
